@@ -31,7 +31,7 @@ RULE = ("programs: generated Go (functions with 3..720 same-scope variables, nes
         "vocabulary joined by random separators (whitespace, comments with quotes/stars, hints), non-trivial = at least one "
         "separator that must survive and one that must not; plus a fixed adversarial list and random byte soup. "
         "alloc: random enter/leave/alloc histories (depth<=5, keyword and colliding base names, both modes) plus fixed "
-        "histories with 130/800 same-scope and 720 package-level names; non-trivial = at least one suffix or one skipped short name")
+        "histories with 130/720/800 same-scope and 720 package-level names; non-trivial = at least one suffix or one skipped short name")
 TRUSTED = ["models of removeWhitespace / newVariable / nestedFunctionContext copy / newRootCtx seeding written by hand "
            "(coq/Model/C16_*.v), tied by this correspondence",
            "encodeIdent (url.QueryEscape) is not modelled: names reach the model in encoded form",
@@ -765,7 +765,7 @@ def allocs(ctx):
     n = 120 if ctx.quick else 3000
     cases = []
     for minify in (False, True):
-        cases.append(dict(minify=minify, ops=gen_history(r, minify, ("locals", 800))))
+        cases.append(dict(minify=minify, ops=gen_history(r, minify, ("locals", 720 if (ctx.quick and minify) else 800))))
         cases.append(dict(minify=minify, ops=gen_history(r, minify, ("locals", 130))))
         cases.append(dict(minify=minify, ops=gen_history(r, minify, ("globals", 720 if not ctx.quick else 200))))
     for _ in range(n):
